@@ -32,6 +32,7 @@ type Env struct {
 	vars map[string]TV
 	loopPre *State
 	skolem  bool // evaluating the top of a proof goal: leading foralls become fresh constants
+	convTo  types.Type // target of conv(e) inside a composite literal field
 }
 
 func (e *Eval) newEnv(pkg *ssa.Package, st, old *State) *Env {
@@ -93,6 +94,9 @@ func exprString(x ast.Expr) string { return types.ExprString(x) }
 func (env *Env) coerce(tv TV, t types.Type) TV {
 	if tv.Ty != nil || tv.Const == nil {
 		return tv
+	}
+	if t == nil {
+		return env.defaultType(tv)
 	}
 	c := env.e.c
 	if w, _, ok := isInt(t); ok {
@@ -406,6 +410,45 @@ func (env *Env) eval(x ast.Expr) TV {
 		return env.binary(n)
 	case *ast.CallExpr:
 		return env.call(n)
+	case *ast.CompositeLit:
+		t := env.typeExpr(n.Type)
+		if t == nil || !isStruct(t) {
+			return env.fail("composite literal of unknown struct type %s", exprString(n.Type))
+		}
+		st := t.Underlying().(*types.Struct)
+		fs := make([]string, st.NumFields())
+		for i := range fs {
+			fs[i] = c.Zero(st.Field(i).Type())
+		}
+		for _, el := range n.Elts {
+			kv, ok := el.(*ast.KeyValueExpr)
+			if !ok {
+				return env.fail("composite literal needs field names")
+			}
+			key, _ := kv.Key.(*ast.Ident)
+			idx := -1
+			for i := 0; i < st.NumFields(); i++ {
+				if key != nil && st.Field(i).Name() == key.Name {
+					idx = i
+				}
+			}
+			if idx < 0 {
+				return env.fail("unknown field in composite literal %s", exprString(kv.Key))
+			}
+			ft := st.Field(idx).Type()
+			// conv(e): e converted to the field's type
+			sub := *env
+			sub.convTo = ft
+			v := sub.eval(kv.Value)
+			if v.Ty == nil {
+				v = env.coerce(v, ft)
+			}
+			if env.sortOf(v.Ty) != env.sortOf(ft) {
+				return env.fail("field %s: %s is not a %s", key.Name, exprString(kv.Value), ft)
+			}
+			fs[idx] = v.T
+		}
+		return TV{T: c.StructMk(t, fs), Ty: t}
 	}
 	return env.fail("unsupported expression %s", exprString(x))
 }
@@ -644,13 +687,25 @@ func (env *Env) call(n *ast.CallExpr) TV {
 		return TV{T: env.e.convert(v.T, v.Ty, t), Ty: t}
 	}
 	switch fname {
-	case "implies", "forall", "old", "atloop", "sameOwed", "sameOwn", "owedNonNeg", "nolocks", "samelocks":
+	case "implies", "forall", "old", "atloop", "sameOwed", "sameOwn", "owedNonNeg", "nolocks", "samelocks", "sameWrExcept", "sameRdExcept":
 	default:
 		if _, isDef := env.e.p.cs.Defines[fname]; !isDef {
 			env = env.noSkolem()
 		}
 	}
 	switch fname {
+	case "conv": // conv(e): convert to the type of the composite-literal field being built
+		if env.convTo == nil {
+			return env.fail("conv outside a composite literal field")
+		}
+		to := env.convTo
+		sub := *env
+		sub.convTo = nil
+		v := sub.eval(n.Args[0])
+		if v.Ty == nil {
+			return env.coerce(v, to)
+		}
+		return TV{T: env.e.convert(v.T, v.Ty, to), Ty: to}
 	case "old":
 		return env.with(env.old).eval(n.Args[0])
 	case "atloop": // value at loop entry (before the first iteration)
@@ -844,6 +899,88 @@ func (env *Env) call(n *ast.CallExpr) TV {
 		v := env.eval(n.Args[0])
 		c.DeclComp("$closed", "(Array Int Bool)")
 		return TV{T: sel(c.Get(env.st, "$closed"), v.T), Ty: boolT}
+	case "sameWrExcept", "sameRdExcept": // every other buffer's ghost sequence is unchanged
+		comp := "$wr"
+		if fname == "sameRdExcept" {
+			comp = "$rd"
+		}
+		c.DeclComp(comp, "(Array Int BSeq)")
+		v := env.noSkolem().eval(n.Args[0])
+		cur, old := c.Get(env.st, comp), c.Get(env.old, comp)
+		if env.skolem {
+			sk := c.Fresh("sk.buf", "Int")
+			return TV{T: implies(not(eq(sk, v.T)), eq(sel(cur, sk), sel(old, sk))), Ty: boolT}
+		}
+		return TV{T: eq(cur, sto(old, v.T, sel(cur, v.T))), Ty: boolT}
+	case "wr", "rd": // ghost byte sequence written to / remaining in a buffer
+		v := env.eval(n.Args[0])
+		comp := "$" + fname
+		c.DeclComp(comp, "(Array Int BSeq)")
+		return TV{T: sel(c.Get(env.st, comp), v.T), Ty: seqType}
+	case "snoc8", "snoc16", "snoc32", "snoc64":
+		sq := env.eval(n.Args[0])
+		w := map[string]int{"snoc8": 8, "snoc16": 16, "snoc32": 32, "snoc64": 64}[fname]
+		v := env.intArg(n.Args[1], w)
+		t := sq.T
+		for k := 0; k < w/8; k++ {
+			t = fmt.Sprintf("(bq.snoc %s ((_ extract %d %d) %s))", t, 8*k+7, 8*k, v)
+		}
+		return TV{T: t, Ty: seqType}
+	case "snocstr": // 2-byte length then the bytes
+		sq := env.eval(n.Args[0])
+		sv := env.defaultType(env.eval(n.Args[1]))
+		l := "((_ extract 15 0) (gs.len " + sv.T + "))"
+		t := fmt.Sprintf("(bq.snoc (bq.snoc %s ((_ extract 7 0) %s)) ((_ extract 15 8) %s))", sq.T, l, l)
+		return TV{T: "(bq.snocraw " + t + " " + sv.T + ")", Ty: seqType}
+	case "cons8", "cons16", "cons32", "cons64":
+		w := map[string]int{"cons8": 8, "cons16": 16, "cons32": 32, "cons64": 64}[fname]
+		v := env.intArg(n.Args[0], w)
+		sq := env.eval(n.Args[1])
+		t := sq.T
+		for k := w/8 - 1; k >= 0; k-- {
+			t = fmt.Sprintf("(bq.cons ((_ extract %d %d) %s) %s)", 8*k+7, 8*k, v, t)
+		}
+		return TV{T: t, Ty: seqType}
+	case "consstr":
+		sv := env.defaultType(env.eval(n.Args[0]))
+		sq := env.eval(n.Args[1])
+		l := "((_ extract 15 0) (gs.len " + sv.T + "))"
+		return TV{T: fmt.Sprintf("(bq.cons ((_ extract 7 0) %s) (bq.cons ((_ extract 15 8) %s) (bq.consraw %s %s)))", l, l, sv.T, sq.T), Ty: seqType}
+	case "has8", "has16", "has32", "has64": // the sequence starts with that many bytes
+		sq := env.eval(n.Args[0])
+		k := map[string]int{"has8": 1, "has16": 2, "has32": 4, "has64": 8}[fname]
+		return TV{T: eq(sq.T, seqRebuild(sq.T, k)), Ty: boolT}
+	case "take8", "take16", "take32", "take64": // little-endian value of the first bytes
+		sq := env.eval(n.Args[0])
+		k := map[string]int{"take8": 1, "take16": 2, "take32": 4, "take64": 8}[fname]
+		t := ""
+		cur := sq.T
+		for i := 0; i < k; i++ {
+			b := "(bq.head " + cur + ")"
+			if i == 0 {
+				t = b
+			} else {
+				t = "(concat " + b + " " + t + ")"
+			}
+			cur = "(bq.tail " + cur + ")"
+		}
+		ty := map[int]types.Type{1: types.Typ[types.Uint8], 2: types.Typ[types.Uint16], 4: types.Typ[types.Uint32], 8: types.Typ[types.Uint64]}[k]
+		return TV{T: t, Ty: ty}
+	case "drop8", "drop16", "drop32", "drop64":
+		sq := env.eval(n.Args[0])
+		k := map[string]int{"drop8": 1, "drop16": 2, "drop32": 4, "drop64": 8}[fname]
+		return TV{T: seqDrop(sq.T, k), Ty: seqType}
+	case "hasstr": // 2-byte length l followed by l raw bytes
+		sq := env.eval(n.Args[0])
+		l := seqLen16(sq.T)
+		t2 := seqDrop(sq.T, 2)
+		return TV{T: and(eq(sq.T, seqRebuild(sq.T, 2)), eq(t2, fmt.Sprintf("(bq.consraw (bq.rawhead %s %s) (bq.rawtail %s %s))", t2, l, t2, l)), eq("(gs.len (bq.rawhead "+t2+" "+l+"))", l)), Ty: boolT}
+	case "takestr":
+		sq := env.eval(n.Args[0])
+		return TV{T: "(bq.rawhead " + seqDrop(sq.T, 2) + " " + seqLen16(sq.T) + ")", Ty: types.Typ[types.String]}
+	case "dropstr":
+		sq := env.eval(n.Args[0])
+		return TV{T: "(bq.rawtail " + seqDrop(sq.T, 2) + " " + seqLen16(sq.T) + ")", Ty: seqType}
 	case "arr": // backing array identity of a slice (mathint)
 		v := env.eval(n.Args[0])
 		return TV{T: "(s.arr " + v.T + ")", Ty: ghostIntType}
@@ -1077,4 +1214,45 @@ func (env *Env) evalGoal(x ast.Expr) string {
 	n := *env
 	n.skolem = true
 	return n.evalBool(x)
+}
+
+func seqDrop(s string, k int) string {
+	for i := 0; i < k; i++ {
+		s = "(bq.tail " + s + ")"
+	}
+	return s
+}
+
+// seqRebuild: cons(head s, cons(head(tail s), ... tail^k s))
+func seqRebuild(s string, k int) string {
+	t := seqDrop(s, k)
+	for i := k - 1; i >= 0; i-- {
+		t = "(bq.cons (bq.head " + seqDrop(s, i) + ") " + t + ")"
+	}
+	return t
+}
+
+// seqLen16: the little-endian 16-bit value of the first two bytes, as int
+func seqLen16(s string) string {
+	return "((_ zero_extend 48) (concat (bq.head (bq.tail " + s + ")) (bq.head " + s + ")))"
+}
+
+// intArg evaluates an integer argument and converts it to width w (named
+// integer types are accepted; wider values are truncated explicitly by the
+// contract author through a conversion).
+func (env *Env) intArg(x ast.Expr, w int) string {
+	v := env.eval(x)
+	if v.Ty == nil {
+		v = env.coerce(v, map[int]types.Type{8: types.Typ[types.Uint8], 16: types.Typ[types.Uint16], 32: types.Typ[types.Uint32], 64: types.Typ[types.Uint64]}[w])
+	}
+	vw, _, ok := isInt(v.Ty)
+	if !ok {
+		env.fail("integer expected in %s", exprString(x))
+		return bvLit(w, 0)
+	}
+	if vw != w {
+		env.fail("%s has width %d, want %d", exprString(x), vw, w)
+		return bvLit(w, 0)
+	}
+	return v.T
 }
